@@ -69,6 +69,32 @@ def new_interp(prog, tid, pid):
         raise Unmodelled('map value %r' % (c,))
     I.hooks['dashmap_val'] = dashmap_val
     ov = I.override
+
+    def m_status_of_entry(I, st, f, args, fr):
+        """get_status() of a cell found in the registry: the holder's status is the shared status object; any other registered cell belongs to a
+        spawner of this instance, whose status is not shared here - it reads as any status of an actor that has not begun to stop"""
+        v = models_std.deref_val(I, st, args[0])
+        if not (isinstance(v, Opaque) and v.tag == 'mapval'):
+            return NotImplemented
+        body = prog.find_fn('ActorCell::get_status')
+        if body is None:
+            raise Inconclusive('ActorCell::get_status not found')
+        outs = []
+        for s2, is_holder in models_std.branch(I, st, v.info == z3.BitVecVal(HOLDER_PID, 8)):
+            cellv = holder_cell(prog, I, s2)
+            if not is_holder:
+                oid = 'other_status!%d' % fresh_id()
+                t = z3.BitVec(oid, 8)
+                s2.assume(z3.ULE(t, 3))
+                s2.objs[oid] = {'w': t}
+                props = s2.cells[cellv.fields[0].cell]
+                sd = prog.crate.struct('ActorProperties')
+                fl = list(props.fields)
+                fl[sd['fields'].index('status')] = Obj('atomic', oid, 'u8')
+                s2.cells[cellv.fields[0].cell] = Agg('ActorProperties', fl)
+            outs += I.run_body(s2, body, [Ref(s2.alloc(cellv), ())])
+        return outs
+    ov.append((re.compile(r'(^|::)ActorCell::get_status$'), m_status_of_entry))
     ov.append((re.compile(r'(^|::)get_new_local_id$'), lambda I, st, f, a, fr: I.ret(st, Enum('ActorId', 'Local', 0, (I.mk_int(pid, 'u64'),)))))
     # process groups and supervision are not part of this check
     for pat in (r'(^|::)demonitor_all$', r'(^|::)leave_all$', r'(^|::)pid_registry::demonitor$', r'^demonitor$'):
